@@ -29,17 +29,22 @@ var baseAssumptions = []string{
 var modelPkgs = []string{"./models/...", "./util/...", "./data", "./conv/..."}
 
 var propSpecs = map[string]PropSpec{
-	"C01": {ID: "C01", Level: "proof", Patterns: []string{"./data/...", "./util/..."}},
-	"C02": {ID: "C02", Level: "proof", Patterns: []string{"./data/...", "./util/..."}},
-	"C03": {ID: "C03", Level: "proof", Patterns: []string{"./data/...", "./util/..."}},
+	"C01": {ID: "C01", Level: "proof", Patterns: []string{"./data/...", "./util/..."},
+		NotCovered: []string{"write footprints of ApplySlice and CopyFrom (not under contract)", "Slice with fewer extents than axes (used by the table-parameter wrappers)"}},
+	"C02": {ID: "C02", Level: "proof", Patterns: []string{"./data/...", "./util/..."},
+		NotCovered: []string{"ApplySlice, CopyFrom", "Reshape, ReshapeFast, MustReshape", "Maximum/Minimum methods of arrays", "whole-array helpers of data/arrayops.go (scale, add-to, apply-function)", "views with an extent of 0 (extents >= 1 are a precondition of the bulk contracts)"}},
+	"C03": {ID: "C03", Level: "proof", Patterns: []string{"./data/...", "./util/..."},
+		NotCovered: []string{"ApplySlice, CopyFrom, Reshape, ReshapeFast of the C back-end", "libopenwater.RunSingleModel (cgo entry point)"}},
 	"C04": {ID: "C04", Level: "proof", Patterns: modelPkgs},
 	"C05": {ID: "C05", Level: "other", Patterns: modelPkgs,
 		Explanation: "Partial: the goroutine-per-cell execution inside every generated Run is decided by sequential contracts plus the disjoint-footprint argument for fork/join parallelism: every write of cell i's goroutine body goes to cells of states[i,.] / outputs[i,.,.] or to memory allocated by that body (SMT-discharged frame obligations), everything captured from Run is read-only in the body, inputs and parameters are never written, and Run receives once per spawned goroutine before returning (structural join check). Under these no two goroutines have conflicting accesses, so every interleaving equals the sequential cell-by-cell order; the step from disjoint footprints to race freedom is a standard meta-theorem that is not mechanised (A-SEQ). The ow-sim half (goroutine per model, asynchronous writer) is not applicable: package main of cmd/ow-sim cannot be loaded or run here and the claim is about interleavings of a protocol.",
 		NotCovered: []string{"goroutine-per-model execution and the asynchronous writer in cmd/ow-sim", "the Go memory model beyond absence of conflicting accesses"}},
 	"C06": {ID: "C06", Level: "proof", Patterns: modelPkgs},
 	"C14": {ID: "C14", Level: "proof", Patterns: modelPkgs},
-	"C10": {ID: "C10", Level: "proof", Patterns: modelPkgs},
-	"C11": {ID: "C11", Level: "proof", Patterns: modelPkgs},
+	"C10": {ID: "C10", Level: "proof", Patterns: modelPkgs,
+		NotCovered: []string{"Sacramento: store bounds and water balance (only the per-timestep component identities and the unit-hydrograph normalisation are proved)", "GR4J unit-hydrograph mass closure (exact balance with zero exchange and zero PET)"}},
+	"C11": {ID: "C11", Level: "proof", Patterns: modelPkgs,
+		NotCovered: []string{"storage routing with bias != 0 or routing power != 1 (sub-step iteration)"}},
 	"C12": {ID: "C12", Level: "proof", Patterns: modelPkgs},
 	"C13": {ID: "C13", Level: "proof", Patterns: modelPkgs},
 	"C15": {ID: "C15", Level: "proof", Patterns: modelPkgs},
